@@ -63,6 +63,10 @@ type Fact struct {
 	Expr ast.Expr
 	Val  bool
 	Tag  ast.Expr // non-nil for switch-case facts: Tag == Expr (Val) or != (¬Val)
+	// Whole: Expr is the complete branch condition (not decomposed into atoms). Delivered only
+	// to queries that ask for them (Query.WholeFacts); used for partial evaluation of the
+	// condition under a finite valuation (evalBool).
+	Whole bool
 }
 
 func unparen(e ast.Expr) ast.Expr {
@@ -197,7 +201,7 @@ func objKey(info *types.Info, e ast.Expr) string {
 
 func identObj(info *types.Info, e ast.Expr) types.Object {
 	if id, ok := unparen(e).(*ast.Ident); ok {
-		return info.ObjectOf(id)
+		return canonObject(info.ObjectOf(id))
 	}
 	return nil
 }
@@ -206,7 +210,7 @@ func identObj(info *types.Info, e ast.Expr) types.Object {
 func mentions(info *types.Info, n ast.Node, o types.Object) bool {
 	found := false
 	walkAll(n, func(m ast.Node) bool {
-		if id, ok := m.(*ast.Ident); ok && info.ObjectOf(id) == o {
+		if id, ok := m.(*ast.Ident); ok && canonObject(info.ObjectOf(id)) == canonObject(o) {
 			found = true
 		}
 		return !found
@@ -291,6 +295,87 @@ func hasPrefixAny(s string, ps ...string) bool {
 	for _, p := range ps {
 		if strings.HasPrefix(s, p) {
 			return true
+		}
+	}
+	return false
+}
+
+// evalBool evaluates a boolean expression under a partial valuation of its atoms (3-valued):
+// atom(e) yields the constant value of a sub-expression when the valuation fixes it. Constants
+// of the program are taken from the type checker. Returns (value, known).
+func evalBool(info *types.Info, e ast.Expr, atom func(ast.Expr) (constant.Value, bool)) (bool, bool) {
+	e = unparen(e)
+	val := func(x ast.Expr) (constant.Value, bool) {
+		x = unparen(x)
+		if v, ok := atom(x); ok {
+			return v, true
+		}
+		if tv, ok := info.Types[x]; ok && tv.Value != nil {
+			return tv.Value, true
+		}
+		return nil, false
+	}
+	if v, ok := val(e); ok && v.Kind() == constant.Bool {
+		return constant.BoolVal(v), true
+	}
+	switch x := e.(type) {
+	case *ast.UnaryExpr:
+		if x.Op == token.NOT {
+			v, k := evalBool(info, x.X, atom)
+			return !v, k
+		}
+	case *ast.BinaryExpr:
+		switch x.Op {
+		case token.LAND:
+			a, ka := evalBool(info, x.X, atom)
+			b, kb := evalBool(info, x.Y, atom)
+			switch {
+			case ka && !a, kb && !b:
+				return false, true
+			case ka && kb:
+				return true, true
+			}
+			return false, false
+		case token.LOR:
+			a, ka := evalBool(info, x.X, atom)
+			b, kb := evalBool(info, x.Y, atom)
+			switch {
+			case ka && a, kb && b:
+				return true, true
+			case ka && kb:
+				return false, true
+			}
+			return false, false
+		case token.EQL, token.NEQ, token.LSS, token.LEQ, token.GTR, token.GEQ:
+			a, ka := val(x.X)
+			b, kb := val(x.Y)
+			if ka && kb {
+				defer func() { recover() }()
+				return constant.Compare(a, x.Op, b), true
+			}
+		}
+	}
+	return false, false
+}
+
+// infeasibleUnder reports whether the edge facts contradict the valuation.
+func infeasibleUnder(info *types.Info, facts []Fact, atom func(ast.Expr) (constant.Value, bool)) bool {
+	for _, f := range facts {
+		switch {
+		case f.Tag != nil:
+			a, ka := atom(unparen(f.Tag))
+			var b constant.Value
+			kb := false
+			if tv, ok := info.Types[f.Expr]; ok && tv.Value != nil {
+				b, kb = tv.Value, true
+			}
+			if ka && kb && constant.Compare(a, token.EQL, b) != f.Val {
+				return true
+			}
+		case f.Whole:
+			if v, known := evalBool(info, f.Expr, atom); known && v != f.Val {
+				return true
+			}
 		}
 	}
 	return false
